@@ -588,6 +588,32 @@ func c15CommandLineUnit() *Unit {
 				}
 			}
 		}
+		// task names that YAML would read as something other than a string when written without quotes
+		// (null, booleans, numbers): the name is the text as written
+		{
+			names := []string{"~", "null", "Null", "true", "no", "1", "1.0", "0x10", "1e3", ".inf", "2001-12-14"}
+			tf2 := "version: '3'\ntasks:\n"
+			for _, nm := range names {
+				tf2 += "  " + nm + ":\n    cmds:\n      - echo 'ran-" + nm + "' >> ran.log\n"
+			}
+			for _, nm := range names {
+				os.RemoveAll(dir)
+				os.MkdirAll(dir, 0o755)
+				os.WriteFile(filepath.Join(dir, "Taskfile.yml"), []byte(tf2), 0o644)
+				_, se, rc := RunCLI(dir, nil, "", "--silent", nm)
+				n++
+				ran, _ := os.ReadFile(filepath.Join(dir, "ran.log"))
+				if rc != 0 || strings.TrimSpace(string(ran)) != "ran-"+nm {
+					v := vlab.V("C15", "wrong_task_or_none", "cli:yaml_scalar_name", fmt.Sprintf("task %q: status %d, ran %q (stderr %q), expected the task of that name", nm, rc, strings.TrimSpace(string(ran)), firstN(se, 100)))
+					v.Scenario = name
+					v.Input = map[string]any{"taskfile": tf2, "args": []string{nm}}
+					res.SigCounts[v.Sig]++
+					if res.SigCounts[v.Sig] == 1 {
+						res.Violations = append(res.Violations, v)
+					}
+				}
+			}
+		}
 		res.Extra["samples"] = samples
 		res.Stats = vlab.Stats{Scenario: name, Execs: n, States: n, Transitions: n, Outcomes: 2, Exhaustive: true}
 		return res
